@@ -59,7 +59,7 @@ def programs(tier):
 
 def observe(rvh, texts, wd, name):
     hc = [{"id": i + 1, "mode": "observe", "text": t, "want": ["cfg", "lints"]} for i, t in enumerate(texts)]
-    tp, evs = run_harness(rvh, hc, wd, name)
+    tp, evs = run_harness_par(rvh, hc, wd, name)
     for e in evs:
         e.setdefault("lints", [])
         e.setdefault("cfg", {"nodes": [], "funcs": []})
